@@ -4,7 +4,8 @@
 (* against LinkedDict.  One event per public call (harness/c09):           *)
 (*                                                                         *)
 (*   Reset  t set none rej ek ...   new object of type t, its conventions  *)
-(*   <Op>   k v dir n               the call and its arguments             *)
+(*   <Op>   k v dir n               the call and its arguments (SetMax n:  *)
+(*                                  any integer, also below the size)      *)
 (*          ret | b | seq | pairs   what it returned (projected)           *)
 (*          size first last         Size(), first and last key AFTER it    *)
 (*   Proj   keys vals               full enumeration (every 16 events and  *)
@@ -114,7 +115,7 @@ TraceNext ==
     \/ TraceIsEmpty \/ TraceIsFull \/ TraceToString \/ TraceToFormatString
     \/ TraceValueIterator \/ TraceGetKeySet \/ TraceToKeySet \/ TraceToBytes
     \/ TraceKeys \/ TraceKeyArray \/ TraceValues \/ TraceEntries \/ TraceProj )
-  /\ InvAll'
+  /\ InvCore' /\ LazyBound
 
 TraceSpec == TraceInit /\ [][TraceNext]_tvars
 
